@@ -73,8 +73,8 @@ theorem fields_in_order (args : List Arg) :
 
 /-- a string-keyed pair is rendered with the type tag `zap.Any` chooses for the value, under its key; a typed field
     is rendered as it came -/
-theorem pair_is_any (k : Tok) (v : Arg) : (Out.any k v).render = .f v.anyType.name k v.tok := rfl
-theorem typed_field_unchanged (ty : String) (k t : Tok) : (Out.passed ty k t).render = .f ty k t := rfl
+example (k : Tok) (v : Arg) : (Out.any k v).render = .f v.anyType.name k v.tok := rfl
+example (ty : String) (k t : Tok) : (Out.passed ty k t).render = .f ty k t := rfl
 
 /-- among the bare errors (error values in key position) the first becomes the field keyed `error`; every later one is
     a multiple-error diagnostic -/
